@@ -5,6 +5,7 @@ import Model.Select
 import Model.Style
 import Model.Splicer
 import Model.Link
+import Model.GoSem
 
 /-
   `ui/ui.go`: `State.Update` and what it calls (`switchTo`, `loadSurroundings`, `subcommand`,
@@ -393,6 +394,123 @@ def Inv (s : State) : Prop :=
   (s.mode ≠ .loading → s.hist.index < s.hist.elements.length) ∧
   (s.hist.elements = [] → s.hist.index = 0) ∧
   (s.mode = .selection → s.buffer ≠ [] ∧ ∀ ch ∈ s.buffer, ch.isDigit = true)
+
+end Ui
+
+/-
+  `view()` above its last step: the three parts.  Generic in the item type: what an item
+  renders to is a parameter (`Render`), as are the terminal size and the two `loadingUp` /
+  `loadingDown` flags of the current page (the settled model does not carry them: they are true
+  only while a background load runs, which is C08's subject).  `Generated/GoView.lean` is the
+  translation of the Go function; `Props/Gen16v.lean` proves it equal to `viewOf`.
+-/
+
+namespace Ui
+
+/-- What an item renders to at a width: `String(width)` and `Preview(width)` of `pub.Tangible`. -/
+structure Render (α : Type) where
+  string : α → Int → Str
+  preview : α → Int → Str
+
+/-- What `view()` reads of the current page. -/
+structure PageView (α : Type) where
+  feed : Feed.F α
+  loadingUp : Bool
+  loadingDown : Bool
+
+variable {α : Type}
+
+/-- `for first > -context && feed.Contains(first-1) { first-- }`; `n` is what is left of the
+    context. -/
+def walkUp (f : Feed.F α) : Nat → Int → Int
+  | 0, x => x
+  | n + 1, x => if Feed.contains f (x - 1) then walkUp f n (x - 1) else x
+
+/-- `for last < context && feed.Contains(last+1) { last++ }`. -/
+def walkDown (f : Feed.F α) : Nat → Int → Int
+  | 0, x => x
+  | n + 1, x => if Feed.contains f (x + 1) then walkDown f n (x + 1) else x
+
+/-- The values of `i` in `for i := first; i <= last; i++`. -/
+def offsets (first last : Int) : List Int :=
+  (List.range (last + 1 - first).toNat).map fun (k : Nat) => first + (k : Int)
+
+/-- One turn of the loop over the feed: `(top, center, bottom)` before and after offset `i`.
+    A position inside the bounds that holds no item is a call through a nil interface. -/
+def partsStep (r : Render α) (f : Feed.F α) (width : Int) (acc : Str × Str × Str) (i : Int) :
+    Except Panic (Str × Str × Str) :=
+  if !Feed.contains f i then .ok acc
+  else
+    match Feed.get f i with
+    | .error e => .error e
+    | .ok none => .error .nilDeref
+    | .ok (some x) =>
+      let serialized :=
+        if Feed.isParent f i then r.preview x (width - 4)
+        else if Feed.isChild f i then
+          "→ ".toList ++ Ansi.indent (r.preview x (width - 8)) "  ".toList false
+        else r.string x (width - 4)
+      let connector := if Feed.isParent f i then "  │\n".toList else "\n".toList
+      if i = 0 then .ok (acc.1, Ansi.indent serialized "┃ ".toList true, connector)
+      else
+        let block := Ansi.indent serialized "  ".toList true ++ "\n".toList ++ connector
+        if i < 0 then .ok (acc.1 ++ block, acc.2.1, acc.2.2)
+        else .ok (acc.1, acc.2.1, acc.2.2 ++ block)
+
+def foldParts (r : Render α) (f : Feed.F α) (width : Int) :
+    List Int → Str × Str × Str → Except Panic (Str × Str × Str)
+  | [], acc => .ok acc
+  | i :: is, acc =>
+    match partsStep r f width acc i with
+    | .error e => .error e
+    | .ok acc' => foldParts r f width is acc'
+
+/-- The three parts of a frame outside loading mode: what is above the cursor, the highlighted
+    item, what is below; the two `Loading…` lines; one trailing newline removed from `top` and
+    `bottom`. -/
+def parts (c : Colors) (r : Render α) (p : PageView α) (ctx width : Int) :
+    Except Panic (Str × Str × Str) :=
+  let first := walkUp p.feed ctx.toNat 0
+  let last := walkDown p.feed ctx.toNat 0
+  match foldParts r p.feed width (offsets first last) ([], [], []) with
+  | .error e => .error e
+  | .ok (top, center, bottom) =>
+    let top :=
+      if p.loadingUp && !Feed.contains p.feed (-ctx - 1) then
+        "\n  ".toList ++ Style.color c "Loading…".toList ++ "\n\n".toList ++ top
+      else top
+    let bottom :=
+      if p.loadingDown && !Feed.contains p.feed (ctx + 1) then
+        bottom ++ ("  ".toList ++ Style.color c "Loading…".toList ++ "\n".toList)
+      else bottom
+    .ok (Str.trimSuffix "\n".toList top, center, Str.trimSuffix "\n".toList bottom)
+
+/-- The three parts in every mode: in loading mode a single centred line, and the history is not
+    looked at; otherwise `Current()` of an empty history panics. -/
+def viewParts (c : Colors) (r : Render α) (mode : Mode) (cur : Except Panic (PageView α))
+    (ctx width : Int) : Except Panic (Str × Str × Str) :=
+  if mode = .loading then .ok ([], Style.color c "  Loading…".toList, [])
+  else
+    match cur with
+    | .error e => .error e
+    | .ok p => parts c r p ctx width
+
+/-- `view()`: the parts, framed.  `height` is an `int` converted with `uint(·)`. -/
+def viewOf (c : Colors) (r : Render α) (mode : Mode) (footer : Option Str)
+    (cur : Except Panic (PageView α)) (ctx width height : Int) : Except Panic Str :=
+  match viewParts c r mode cur ctx width with
+  | .error e => .error e
+  | .ok (top, center, bottom) => frame c top center bottom footer width (Go.toUint height)
+
+/-- `view()` of a model state on a terminal of the given size; `up` / `down` are the current
+    page's `loadingUp` / `loadingDown`. -/
+def view (c : Colors) (r : Render T) (s : State) (up down : Bool) (width height : Int) :
+    Except Panic Str :=
+  viewOf c r s.mode (footerOf s)
+    (match History.current s.hist with
+     | .error e => .error e
+     | .ok page => .ok ⟨page.feed, up, down⟩)
+    s.context width height
 
 end Ui
 
